@@ -101,6 +101,7 @@ def run_path(ctx, contract, unit, prefix):
         for r in contract.requires:
             ex.assume(ex.spec(r))
         ex.old_state = ex.snapshot()
+        ex.entry_params = dict(ex.locals)
         ex.pre_pc_len = len(ex.pc)
         try:
             ex.loop_counter = [0]
@@ -119,6 +120,8 @@ def run_path(ctx, contract, unit, prefix):
 
 
 def finish(ex: Exec, contract: Contract, outcome):
+    # in a postcondition a parameter name denotes the argument the caller passed (its entry binding), whatever the body rebinds it to
+    ex.locals.update(getattr(ex, "entry_params", {}))
     if outcome[0] == "normal":
         res = outcome[1]
         for cl, e in contract.ensures.items():
